@@ -4,10 +4,12 @@ EXTENDS PluralsOps
 Locs == <<"en", "fr", "ru", "ar", "pl", "ja", "cy", "ga", "lv", "he">>
 FormSym == [zero |-> <<"z","e","r","o">>, one |-> <<"o","n","e">>, two |-> <<"t","w","o">>, few |-> <<"f","e","w">>,
             many |-> <<"m","a","n","y">>, other |-> <<"o","t","h","e","r">>]
-CountToks == <<"0", "1", "2", "3", "5", "11", "21", "100", "1000000", "1.5">>
+\* (negative counts: CLDR takes its operands from the absolute value, -1 selects what 1 selects)
+CountToks == <<"0", "1", "2", "3", "5", "11", "21", "100", "1000000", "1.5", "-1", "-2">>
 CountSym == [i \in DOMAIN CountToks |->
               CASE CountToks[i] = "11" -> <<"1","1">> [] CountToks[i] = "21" -> <<"2","1">> [] CountToks[i] = "100" -> <<"1","0","0">>
                 [] CountToks[i] = "1000000" -> <<"1","0","0","0","0","0","0">> [] CountToks[i] = "1.5" -> <<"1","DOT","5">>
+                [] CountToks[i] = "-1" -> <<"DASH","1">> [] CountToks[i] = "-2" -> <<"DASH","2">>
                 [] OTHER -> <<CountToks[i]>>]
 
 FormText(m) == (IF m.ty = "ordinal" THEN <<"o">> ELSE <<"c">>) \o <<"DASH">> \o FormSym[m.form]
